@@ -37,6 +37,7 @@ TABLE = {
     "reverts/r16_0551186.diff": ["C20"],
     "reverts/r17_duration_observer_midrun.diff": ["C04"],
     "reverts/r18_notify_skip.diff": ["C10"],
+    "reverts/r19_0032464.diff": ["C20"],
     "c10_notify_snapshot_no_recheck.diff": ["C10"],
 }
 
